@@ -66,6 +66,9 @@ type c09case struct {
 	Pause    bool   `json:"pause,omitempty"`     // pause between the two reply bytes
 	CancelAt int    `json:"cancel_at"`           // -2 never, -1 before the call, 0..4 when the server reaches that step
 	Long     bool   `json:"long_timeouts,omitempty"`
+	// Slow (section e): scanner timeouts of 1 s; the server waits 600 ms before EACH reply byte, so every
+	// read is answered inside its own data timeout while the whole reply takes longer than one timeout
+	Slow bool `json:"slow_split,omitempty"`
 }
 
 func (k *c09case) name() string {
@@ -76,6 +79,8 @@ func (k *c09case) name() string {
 		return fmt.Sprintf("b:split=%02x|%02x", k.B1, k.B2)
 	case "c":
 		return "c:script=" + k.Script
+	case "e":
+		return fmt.Sprintf("e:slow-split=%02x|%02x", k.B1, k.B2)
 	}
 	return fmt.Sprintf("d:script=%s:cancel@%d", k.Script, k.CancelAt)
 }
@@ -129,7 +134,7 @@ type c09server struct {
 }
 
 func c09addr(sect string, idx int) net.IP {
-	base := map[string]int{"a": 1, "b": 40, "c": 60, "d": 80}[sect]
+	base := map[string]int{"a": 1, "b": 40, "c": 60, "d": 80, "e": 90}[sect]
 	return net.IPv4(127, byte(base+(idx/(254*256))%20), byte((idx/254)%256), byte(1+idx%254))
 }
 
@@ -295,9 +300,15 @@ func (s *c09server) run() {
 			case k.OneWrite:
 				s.write([]byte{k.B1, k.B2})
 			default:
+				if k.Slow {
+					time.Sleep(600 * time.Millisecond)
+				}
 				s.write([]byte{k.B1})
 				if k.Pause {
 					time.Sleep(c09Pause)
+				}
+				if k.Slow {
+					time.Sleep(600 * time.Millisecond)
 				}
 			}
 		case 3:
@@ -379,6 +390,9 @@ func c09run(k *c09case, generous bool) (o c09obs) {
 	dialT, dataT := c09Timeout, c09Timeout
 	if k.Long {
 		dialT, dataT = c09LongTimeout, c09LongTimeout
+	}
+	if k.Slow {
+		dialT, dataT = time.Second, time.Second
 	}
 	if generous {
 		dialT, dataT = c09Generous, c09Generous
@@ -574,7 +588,7 @@ func verifC09(c *drv.Ctx) {
 		"c: every reachable script with one symbol per step {accept, read greeting, reply byte 1, reply byte 2, after reply} over " +
 		"{P proceed, S stall, C close, R reset (linger 0), G 1 MB garbage instead of the step, H the outstanding reply bytes + 1 MB garbage}, S/C/R end a script; accept step additionally " +
 		"N nothing listening (refused) and D SYNs dropped (listen backlog full); after-reply step over {P,C,R,G}; " +
-		"d: every script of c that ends in S or D, scanner timeouts 5 s, context cancelled before the call and when the server reaches each step up to the stall (30 ms into the stall). " +
+		"e: reply bytes 05|x for x in {00,01,02,ff} each sent 600 ms after the previous event with scanner timeouts of 1 s (every read is answered in time although the reply as a whole takes 1.2 s: the data timeout is per operation); d: every script of c that ends in S or D, scanner timeouts 5 s, context cancelled before the call and when the server reaches each step up to the stall (30 ms into the stall). " +
 		"Oracle from the server's own log: record required iff accepted, first two bytes sent = 05 00, no reset/close-with-unread-data and no cancellation before the return (then either); forbidden otherwise; " +
 		"record = probed ip/port; bytes received = 05 01 00; duration <= connect + 3 x data + 2 s, <= 2 s after cancel; hard cap 10 s = hang. " +
 		"A failing case is re-run once (decision failures with 3 s timeouts, timing failures unchanged) and reported only if it fails again: machine load cannot raise an alarm. " +
@@ -610,6 +624,11 @@ func verifC09(c *drv.Ctx) {
 		add(&c09case{Sect: "b", Script: "PPPPP", B1: 5, B2: byte(x), Pause: true, CancelAt: -2})
 		add(&c09case{Sect: "b", Script: "PPPPP", B1: byte(x), B2: 0, Pause: true, CancelAt: -2})
 		nsect["b"] += 2
+		if x == 0 || x == 1 || x == 2 || x == 0xff {
+			// e: each reply byte 600 ms after the previous event, data timeout 1 s (per read, not per reply)
+			add(&c09case{Sect: "e", Script: "PPPPP", B1: 5, B2: byte(x), Slow: true, CancelAt: -2})
+			nsect["e"]++
+		}
 	}
 	for v := 0; v < 65536; v++ {
 		add(&c09case{Sect: "a", Script: "PPPPP", B1: byte(v >> 8), B2: byte(v), OneWrite: true, CancelAt: -2})
